@@ -22,6 +22,7 @@ import (
 var rnd *Rand
 var out *Out
 var root string
+var defaultClock = counter.CounterTime
 
 func genNow() time.Time {
 	switch rnd.Intn(6) {
@@ -205,10 +206,15 @@ func caseRotate() {
 	case 1:
 		os.Remove(filepath.Join(telemetry.Default.LocalDir(), "weekends"))
 		out.Note("rotate-setting-removed")
+	case 2:
+		// a blank setting: the span cannot be computed, the process stops counting
+		os.WriteFile(filepath.Join(telemetry.Default.LocalDir(), "weekends"), Pick(rnd, [][]byte{{}, []byte("\n"), []byte("  \t\n")}), 0666)
+		out.Note("rotate-setting-blank")
 	}
 	f.Rotate1()
 	after1 := readWeekends()
 	b1, e1 := f.Span()
+	failed := f.Err() != nil
 	n2 := 1 + rnd.Intn(5)
 	c.Add(int64(n2))
 	f.Close()
@@ -218,7 +224,7 @@ func caseRotate() {
 		keys = append(keys, k)
 	}
 	sort.Strings(keys)
-	fields := []string{"rotate", I(now0.Unix()), I(now.Unix()), I(int64(wd)), H(after1), I(int64(n1)), I(int64(n2)),
+	fields := []string{"rotate", I(now0.Unix()), I(now.Unix()), I(int64(wd)), H(after1), B(failed), I(int64(n1)), I(int64(n2)),
 		I(b0.Unix()), I(e0.Unix()), I(b1.Unix()), I(e1.Unix()), I(int64(len(keys)))}
 	for _, k := range keys {
 		p := strings.SplitN(k, "|", 2)
@@ -307,6 +313,28 @@ func caseShare() {
 		I(b2.Unix()), I(e2.Unix()), HS(tb), HS(te))
 }
 
+// realclock: the package's own clock (not replaced), in a process whose local
+// zone is far from UTC: the span is computed on the UTC calendar.
+func caseRealClock() {
+	wk := []byte(fmt.Sprintf("%d\n", rnd.Intn(7)))
+	dir := setupDir(wk, false)
+	defer os.RemoveAll(dir)
+	saved := time.Local
+	defer func() { time.Local = saved }()
+	off := Pick(rnd, []int{14 * 3600, -12 * 3600, 13*3600 + 2700, -11 * 3600})
+	time.Local = time.FixedZone("far", off)
+	counter.CounterTime = defaultClock
+	t0 := time.Now()
+	b, e, err := counter.VerifCounterSpan()
+	t1 := time.Now()
+	errs := "ok"
+	if err != nil {
+		errs = "err"
+	}
+	out.Note("real-clock-in-far-zone")
+	out.Case(true, "realclock", I(t0.Unix()), I(t1.Unix()), H(wk), errs, I(b.Unix()), I(e.Unix()), I(int64(off)))
+}
+
 // upload: a real counter file, then the real uploader (mode local) with a
 // start time relative to the end instant.
 func caseUpload() {
@@ -387,6 +415,8 @@ func main() {
 	defer os.RemoveAll(root)
 	for i := 0; i < n; i++ {
 		switch {
+		case i%50 == 49:
+			caseRealClock()
 		case i%10 < 4:
 			caseSpan()
 		case i%10 < 5:
